@@ -33,12 +33,19 @@ def find(qual, repo=None):
     name = name.split('@')[0]   # '@tag' marks a specialised contract of the same function
     src, tree = module_ast(mod, repo)
     parts = name.split('.')
+    want_setter = parts[-1] == 'setter'      # 'Class.prop.setter': the def decorated with @prop.setter
+    if want_setter:
+        parts = parts[:-1]
     body = tree.body
     node = None
     for i, p in enumerate(parts):
         node = None
         for n in body:
             if isinstance(n, (ast.FunctionDef, ast.ClassDef)) and n.name == p:
+                if want_setter and i == len(parts) - 1:
+                    if isinstance(n, ast.FunctionDef) and any(ast.unparse(d) == p + '.setter' for d in n.decorator_list):
+                        node = n
+                    continue
                 # a property has a getter and a setter of the same name: the contract is the getter's
                 if node is not None and isinstance(node, ast.FunctionDef) and \
                         any(ast.unparse(d) == 'property' for d in node.decorator_list):
